@@ -4,8 +4,13 @@ supposed to catch it (meta.json: caught_by) and write selftest/seeded_matrix.jso
 import glob, json, os, subprocess, sys, re
 HERE = os.path.dirname(os.path.abspath(__file__))
 out = {}
+only = set(sys.argv[1:])          # optional: ids to (re)run; their entries are merged into the existing matrix
+if only and os.path.exists(os.path.join(HERE, "seeded_matrix.json")):
+    out = json.load(open(os.path.join(HERE, "seeded_matrix.json")))
 for d in sorted(glob.glob(os.path.join(os.path.dirname(HERE), "seeded", "S*"))):
     m = json.load(open(os.path.join(d, "meta.json")))
+    if only and m["id"] not in only:
+        continue
     if m.get("neutralised"):
         out[m["id"]] = {"property": m["property"], "checks": m["caught_by"], "status": "neutralised", "detail": "a later repair of the library made this change harmless (see meta.json)"}
         print(m["id"], "neutralised", flush=True)
